@@ -7,6 +7,7 @@ import Mathlib.Data.List.Perm.Basic
 import Mathlib.Data.List.Nodup
 import Mathlib.Data.List.Dedup
 import Mathlib.Algebra.BigOperators.Intervals
+import Mathlib.Algebra.Order.BigOperators.Group.Finset
 
 /-- L1 (pigeonhole, both directions): two duplicate-free lists with the same members have the same length. -/
 theorem nodup_same_members_same_length {α : Type} (l₁ l₂ : List α)
@@ -35,3 +36,9 @@ theorem unit_steps_closed_form (f : ℕ → ℤ) (m : ℕ) (h : ∀ i, i + 1 < m
     have h1 : f (k + 1) = f k + 1 := h k hk
     have h2 : f k = f 0 + k := ih (Nat.lt_of_succ_lt hk)
     rw [h1, h2]; push_cast; exact Int.add_assoc _ _ _
+
+/-- L5 (monotone counting): partial sums of a sequence of non-negative integers are monotone in the upper bound.
+    (`cnt i = ∑ k in range i, ind k` counts the marked positions below `i`.) -/
+theorem partial_sums_monotone (ind : ℕ → ℤ) (h : ∀ k, 0 ≤ ind k) (i j : ℕ) (hij : i ≤ j) :
+    (Finset.range i).sum ind ≤ (Finset.range j).sum ind :=
+  Finset.sum_le_sum_of_subset_of_nonneg (Finset.range_mono hij) (fun k _ _ => h k)
